@@ -210,4 +210,274 @@ theorem inv_failTxn {s : St} (h : Inv s) {t : Txn} (hn : s.txn = some t) : Inv (
     (by intro hf; simp at hf) (by intro hf; simp at hf) (fun hw => h.wrapStaged hw t hn)
   exact this
 
+/-- the invariant does not mention the temp area or the pack mark -/
+theorem Inv.congr {s s' : St} (h : Inv s) (h1 : s'.flavor = s.flavor) (h2 : s'.files = s.files)
+    (h3 : s'.hist = s.hist) (h4 : s'.txn = s.txn) (h5 : s'.dirty = s.dirty) : Inv s' := by
+  obtain ⟨a1, a2, a3, a4, a5, a6, a7, a8, a9, a10⟩ := h
+  constructor
+  · rw [h3, h4]; exact a1
+  · rw [h4]; exact a2
+  · rw [h4, h5]; exact a3
+  · rw [h2, h3, h5]; exact a4
+  · rw [h4, h5]; exact a5
+  · rw [h4, h5]; exact a6
+  · rw [h2, h3]; exact a7
+  · rw [h2, h4]; exact a8
+  · rw [h1, h3]; exact a9
+  · rw [h1, h4]; exact a10
+
+theorem inv_store {s : St} (h : Inv s) (oid val base : Nat) : Inv (store s oid val base).1 := by
+  unfold store
+  cases hn : s.txn with
+  | none => simpa using h
+  | some t =>
+    simp only
+    split
+    · exact h
+    · split
+      · exact inv_failTxn h hn
+      · refine inv_setTxn h hn _ rfl ?_ ?_ ?_ ?_ ?_
+        · intro r hr
+          rcases List.mem_cons.1 hr with hr | hr
+          · subst hr; rfl
+          · exact h.stagedTid t hn r hr
+        · intro k hk
+          obtain ⟨r, hr, hk'⟩ := h.dirtyStaged t hn k hk
+          exact ⟨r, List.mem_cons_of_mem _ hr, hk'⟩
+        · intro hf r hr hb
+          rcases List.mem_cons.1 hr with hr | hr
+          · subst hr; simp at hb
+          · exact h.stagedFile t hn hf r hr hb
+        · intro hf r hr hb
+          rcases List.mem_cons.1 hr with hr | hr
+          · subst hr; simp at hb
+          · exact h.srcStaged t hn hf r hr hb
+        · intro hw r hr
+          rcases List.mem_cons.1 hr with hr | hr
+          · subst hr; simp
+          · exact h.wrapStaged hw t hn r hr
+
+theorem not_isStaged {t : Txn} {oid : Nat} (h : ¬ isStaged t oid = true) :
+    ∀ r ∈ t.staged, r.oid ≠ oid := by
+  intro r hr he
+  apply h
+  simp only [isStaged, List.any_eq_true]
+  exact ⟨r, hr, by simpa using he⟩
+
+/-- inside a transaction, a file name carrying the transaction's tid exists iff it is dirty -/
+theorem Inv.own_file {s : St} (h : Inv s) {t : Txn} (hn : s.txn = some t) (k : Key)
+    (hk : k.2 = t.tid) : (aget s.files k).isSome ↔ k ∈ s.dirty := by
+  rw [h.filesIff k]
+  constructor
+  · rintro (⟨r, hr, hkey, _⟩ | hd)
+    · have h1 := h.fresh t hn r hr
+      have h2 : k.2 = r.tid := by rw [← hkey]; rfl
+      omega
+    · exact hd
+  · exact Or.inr
+
+theorem Inv.dirty_tid {s : St} (h : Inv s) {t : Txn} (hn : s.txn = some t) :
+    ∀ k ∈ s.dirty, k.2 = t.tid := by
+  intro k hk
+  obtain ⟨t0, ht0, hk2⟩ := h.dirtyTid k hk
+  rw [hn] at ht0; simp only [Option.some.injEq] at ht0; subst ht0; exact hk2
+
+theorem inv_storeBlob {s : St} (h : Inv s) (oid n base : Nat) (check : Bool) :
+    Inv (storeBlob s oid n base check).1 := by
+  unfold storeBlob
+  cases hn : s.txn with
+  | none => simpa using h
+  | some t =>
+    simp only
+    split
+    · exact h
+    · rename_i hns
+      have hnst : ∀ r ∈ t.staged, r.oid ≠ oid := by
+        apply not_isStaged
+        intro hc; exact hns (Or.inr hc)
+      split
+      · exact inv_failTxn h hn
+      · simp only [blobStoreBlob, setTxn]
+        cases hb : aget s.tmp n with
+        | none =>
+          simp only [failTxn]
+          refine inv_setTxn h hn _ rfl ?_ ?_ ?_ ?_ ?_
+          · intro r hr
+            rcases List.mem_cons.1 hr with hr | hr
+            · subst hr; rfl
+            · exact h.stagedTid t hn r hr
+          · intro k hk
+            obtain ⟨r, hr, hk'⟩ := h.dirtyStaged t hn k hk
+            exact ⟨r, List.mem_cons_of_mem _ hr, hk'⟩
+          · intro hf; simp at hf
+          · intro hf; simp at hf
+          · intro hw r hr
+            rcases List.mem_cons.1 hr with hr | hr
+            · subst hr; simp
+            · exact h.wrapStaged hw t hn r hr
+        | some b =>
+          simp only
+          have key := inv_update h hn (aset s.files (oid, t.tid) b) ((oid, t.tid) :: s.dirty)
+            { t with staged := { oid := oid, tid := t.tid, kind := .blob, val := 0,
+                                 src := t.tid } :: t.staged } rfl ?_ ?_ ?_ ?_ ?_ ?_ ?_ ?_
+          · exact key.congr rfl rfl rfl rfl rfl
+          · intro r hr
+            rcases List.mem_cons.1 hr with hr | hr
+            · subst hr; rfl
+            · exact h.stagedTid t hn r hr
+          · intro k hk
+            rcases List.mem_cons.1 hk with hk | hk
+            · subst hk; rfl
+            · exact h.dirty_tid hn k hk
+          · intro k hk
+            rw [aget_aset]
+            have : k ≠ (oid, t.tid) := by
+              intro e; apply hk; rw [e]
+            simp [this]
+          · intro k hk
+            rw [aget_aset]
+            by_cases e : k = (oid, t.tid)
+            · simp [e]
+            · simp only [e, if_false, List.mem_cons, false_or]
+              exact h.own_file hn k hk
+          · intro k hk
+            rcases List.mem_cons.1 hk with hk | hk
+            · subst hk
+              exact ⟨_, List.mem_cons_self, rfl, rfl⟩
+            · obtain ⟨r, hr, hk'⟩ := h.dirtyStaged t hn k hk
+              exact ⟨r, List.mem_cons_of_mem _ hr, hk'⟩
+          · intro hf r hr hbl
+            rcases List.mem_cons.1 hr with hr | hr
+            · subst hr; exact List.mem_cons_self
+            · exact List.mem_cons_of_mem _ (h.stagedFile t hn hf r hr hbl)
+          · intro hf r hr hbl
+            rcases List.mem_cons.1 hr with hr | hr
+            · subst hr; exact ⟨Nat.le_refl _, rfl⟩
+            · obtain ⟨hle, heq⟩ := h.srcStaged t hn hf r hr hbl
+              refine ⟨hle, ?_⟩
+              have hne := hnst r hr
+              have e1 : ((r.oid, r.src) : Key) ≠ (oid, t.tid) := by
+                intro e; exact hne (congrArg Prod.fst e)
+              have e2 : r.key ≠ (oid, t.tid) := by
+                intro e; exact hne (congrArg Prod.fst e)
+              rw [aget_aset, aget_aset]
+              simp only [e1, e2, if_false]
+              exact heq
+          · intro hw r hr
+            rcases List.mem_cons.1 hr with hr | hr
+            · subst hr; simp
+            · exact h.wrapStaged hw t hn r hr
+
+theorem aget_blobTpcAbort (fs : Files) (ks : List Key) (k : Key) :
+    aget (blobTpcAbort fs ks).1 k = if k ∈ ks then none else aget fs k := by
+  induction ks generalizing fs with
+  | nil => simp [blobTpcAbort]
+  | cons k0 ks ih =>
+    simp only [blobTpcAbort]
+    cases h0 : aget fs k0 with
+    | some b =>
+      simp only
+      rw [ih, aget_adel]
+      by_cases e : k = k0
+      · simp [e]
+      · simp [e]
+    | none =>
+      simp only
+      rw [ih]
+      by_cases e : k = k0
+      · subst e; simp [h0]
+      · simp [e]
+
+theorem inv_abort {s : St} (h : Inv s) : Inv (abort s).1 := by
+  unfold abort
+  cases hn : s.txn with
+  | none => simpa using h
+  | some t =>
+    simp only
+    have hfresh := h.fresh t hn
+    have hdt := h.dirty_tid hn
+    constructor
+    · intro t0 ht0; simp at ht0
+    · intro t0 ht0; simp at ht0
+    · intro k hk; simp at hk
+    · intro k
+      show (aget (blobTpcAbort s.files s.dirty).1 k).isSome ↔ (BlobRecIn s.hist k ∨ k ∈ [])
+      rw [aget_blobTpcAbort]
+      by_cases hk : k ∈ s.dirty
+      · simp only [hk, if_true, Option.isSome_none, List.not_mem_nil, or_false]
+        constructor
+        · intro hc; cases hc
+        · rintro ⟨r, hr, hkey, _⟩
+          have h1 := hfresh r hr
+          have h2 := hdt k hk
+          have h3 : k.2 = r.tid := by rw [← hkey]; rfl
+          omega
+      · simp only [hk, if_false, List.not_mem_nil, or_false]
+        rw [h.filesIff k]
+        simp [hk]
+    · intro t0 ht0; simp at ht0
+    · intro t0 ht0; simp at ht0
+    · intro r hr hb
+      obtain ⟨hle, heq⟩ := h.srcHist r hr hb
+      have hlt := hfresh r hr
+      refine ⟨hle, ?_⟩
+      show aget (blobTpcAbort s.files s.dirty).1 (r.oid, r.src)
+         = aget (blobTpcAbort s.files s.dirty).1 r.key
+      rw [aget_blobTpcAbort, aget_blobTpcAbort]
+      have n1 : ((r.oid, r.src) : Key) ∉ s.dirty := by
+        intro hc; have := hdt _ hc; simp only at this; omega
+      have n2 : r.key ∉ s.dirty := by
+        intro hc; have := hdt _ hc; simp only [Rec.key] at this; omega
+      simp only [n1, n2, if_false]
+      exact heq
+    · intro t0 ht0; simp at ht0
+    · exact h.wrapHist
+    · intro _ t0 ht0; simp at ht0
+
+theorem inv_finish {s : St} (h : Inv s) : Inv (finish s).1 := by
+  unfold finish
+  cases hn : s.txn with
+  | none => simpa using h
+  | some t =>
+    simp only
+    split
+    · exact h
+    · rename_i hc
+      have hf : t.failed = false := by
+        cases hff : t.failed with
+        | false => rfl
+        | true => exact absurd (Or.inl hff) hc
+      have hfresh := h.fresh t hn
+      have hdt := h.dirty_tid hn
+      constructor
+      · intro t0 ht0; simp at ht0
+      · intro t0 ht0; simp at ht0
+      · intro k hk; simp at hk
+      · intro k
+        show (aget s.files k).isSome ↔ (BlobRecIn (t.staged ++ s.hist) k ∨ k ∈ [])
+        rw [h.filesIff k]
+        simp only [List.not_mem_nil, or_false, BlobRecIn, List.mem_append]
+        constructor
+        · rintro (⟨r, hr, hk⟩ | hd)
+          · exact ⟨r, Or.inr hr, hk⟩
+          · obtain ⟨r, hr, hk⟩ := h.dirtyStaged t hn k hd
+            exact ⟨r, Or.inl hr, hk⟩
+        · rintro ⟨r, hr | hr, hkey, hb⟩
+          · right
+            have := h.stagedFile t hn hf r hr hb
+            rw [hkey] at this; exact this
+          · exact Or.inl ⟨r, hr, hkey, hb⟩
+      · intro t0 ht0; simp at ht0
+      · intro t0 ht0; simp at ht0
+      · intro r hr hb
+        rcases List.mem_append.1 hr with hr | hr
+        · exact h.srcStaged t hn hf r hr hb
+        · exact h.srcHist r hr hb
+      · intro t0 ht0; simp at ht0
+      · intro hw r hr
+        rcases List.mem_append.1 hr with hr | hr
+        · exact h.wrapStaged hw t hn r hr
+        · exact h.wrapHist hw r hr
+      · intro _ t0 ht0; simp at ht0
+
 end Proofs.Blob
